@@ -685,7 +685,11 @@ func (c *Client) handleAgentCallback(event Event) { //nolint:cyclop
 	}
 	// Starting agent transaction.
 	if startErr := c.a.Start(id, timeOut); startErr != nil {
-		c.delete(id)
+		if !c.delete(id) {
+			// Completed concurrently after it was registered again: the
+			// transaction now belongs to the goroutine that completed it.
+			return
+		}
 		event.Error = startErr
 		transaction.handle(event)
 		putClientTransaction(transaction)
@@ -695,7 +699,13 @@ func (c *Client) handleAgentCallback(event Event) { //nolint:cyclop
 	// Writing message to connection again.
 	_, writeErr := c.c.Write(buff.buf)
 	if writeErr != nil {
-		c.delete(id)
+		if !c.delete(id) {
+			// A response (or Close) completed the transaction while the
+			// write was in progress. That goroutine has called the handler
+			// and released the transaction; releasing it a second time would
+			// hand the same pooled object to two later transactions.
+			return
+		}
 		event.Error = writeErr
 		// Stopping agent transaction instead of waiting until it's deadline.
 		// This will call handleAgentCallback with "ErrTransactionStopped" error
